@@ -1,25 +1,426 @@
 package sx
 
-// Cooperative scheduler for `go` statements. Context switches happen only at
-// synchronisation intrinsics (mutex operations, atomics, thread exit).
-// (Single-threaded fallback: a spawned function runs to completion at the
-// point chosen by the scheduler.)
+import (
+	"fmt"
+	"go/token"
+	"sync"
+)
+
+// Cooperative scheduler for `go` statements.
+//
+// Every interpreted goroutine ("thread") runs on its own real goroutine, but
+// only one of them runs at any time: control is handed over explicitly at
+// SCHEDULING POINTS — mutex/RWMutex operations, sync/atomic operations,
+// WaitGroup operations, thread start and thread exit. At a scheduling point
+// with more than one runnable thread the choice is a nondeterministic Fork, so
+// every interleaving at that granularity is a separate explored path and the
+// schedule is part of the path's decision trace (re-execution replays it).
+//
+// This is sequentially consistent interleaving semantics at the granularity
+// of Go's synchronisation operations. Data races on plain memory accesses and
+// weak-memory effects are not explored. Preemptions (switching away from a
+// thread that could continue) are bounded by Conf.MaxPreempt; switches forced
+// by blocking or thread exit are not counted.
+
+type thread struct {
+	id        int
+	resume    chan struct{}
+	started   bool
+	done      bool
+	blockedOn any // *mutexState | *wgState | nil
+	depth     int
+}
+
+type mutexState struct {
+	writer  int // thread id + 1; 0 = free
+	readers int
+}
+
+type wgState struct{ n int64 }
 
 type sched struct {
-	pending []pendingGo
+	m        *Machine
+	threads  []*thread
+	cur      *thread
+	fatal    any
+	killed   bool
+	alive    sync.WaitGroup
+	mutexes  map[Ptr]*mutexState
+	wgs      map[Ptr]*wgState
+	preempts int
+	switches []int // executed schedule (thread ids)
+	choices  []int // thread id chosen at each scheduling decision (what the native replay follows)
 }
 
-type pendingGo struct {
-	fn   Value
-	args []Value
+type threadKill struct{}
+
+// threadPanic is an uncaught Go panic in a non-main goroutine: it crashes the
+// program and cannot be recovered by the main thread's deferred calls.
+type threadPanic struct{ gp *GoPanic }
+
+func (m *Machine) sched() *sched {
+	if m.threads == nil {
+		s := &sched{m: m, mutexes: map[Ptr]*mutexState{}, wgs: map[Ptr]*wgState{}}
+		main := &thread{id: 0, resume: make(chan struct{}, 1), started: true}
+		s.threads = []*thread{main}
+		s.cur = main
+		m.threads = s
+	}
+	return m.threads
 }
+
+func (s *sched) runnable() []*thread {
+	// current thread first: decision 0 = "keep running"
+	var out []*thread
+	if !s.cur.done && s.cur.blockedOn == nil {
+		out = append(out, s.cur)
+	}
+	for _, t := range s.threads {
+		if t != s.cur && !t.done && t.blockedOn == nil {
+			out = append(out, t)
+		}
+	}
+	return out
+}
+
+// switchTo hands control to t and parks the calling thread until it is
+// resumed (unless it is finished).
+func (s *sched) switchTo(t *thread, park bool) {
+	me := s.cur
+	if t == me {
+		return
+	}
+	m := s.m
+	me.depth = m.depth
+	s.cur = t
+	s.switches = append(s.switches, t.id)
+	t.resume <- struct{}{}
+	if !park {
+		return
+	}
+	<-me.resume
+	m.depth = me.depth
+	s.afterResume(me)
+}
+
+func (s *sched) afterResume(me *thread) {
+	if s.killed {
+		panic(threadKill{})
+	}
+	if s.fatal != nil && me.id == 0 {
+		f := s.fatal
+		s.fatal = nil
+		panic(f)
+	}
+}
+
+const maxThreads = 4
 
 func (m *Machine) spawn(fr *frame, fn Value, args []Value) {
-	m.unsupported("go statement (scheduler not enabled for this harness)")
+	if m.initing {
+		m.unsupported("go statement during package initialisation")
+	}
+	s := m.sched()
+	if len(s.threads) >= maxThreads {
+		m.abort("budget", "more than %d goroutines", maxThreads)
+	}
+	t := &thread{id: len(s.threads), resume: make(chan struct{}, 1)}
+	s.threads = append(s.threads, t)
+	s.alive.Add(1)
+	go func() {
+		defer s.alive.Done()
+		<-t.resume
+		if s.killed {
+			return
+		}
+		t.started = true
+		defer func() {
+			r := recover()
+			if _, ok := r.(threadKill); ok {
+				return
+			}
+			t.done = true
+			if r != nil {
+				if gp, ok := r.(*GoPanic); ok {
+					r = threadPanic{gp}
+				}
+				if s.fatal == nil {
+					s.fatal = r
+				}
+				main := s.threads[0]
+				s.cur = main
+				main.resume <- struct{}{}
+				return
+			}
+			s.exitThread(t)
+		}()
+		m.depth = 0
+		m.call(nil, token.NoPos, fn, args)
+	}()
+	// thread start is a scheduling point
+	m.yield(fr, "go")
 }
 
-func (m *Machine) yield(fr *frame, what string) {}
+// exitThread picks the next thread after t finished (runs on t's goroutine).
+func (s *sched) exitThread(t *thread) {
+	m := s.m
+	defer func() {
+		// a path end raised while choosing (e.g. infeasible) must reach main
+		if r := recover(); r != nil {
+			if s.fatal == nil {
+				s.fatal = r
+			}
+			main := s.threads[0]
+			s.cur = main
+			main.resume <- struct{}{}
+		}
+	}()
+	s.wake(s) // joiners re-check
+	rs := s.runnable()
+	if len(rs) == 0 {
+		if s.allDone() {
+			return
+		}
+		s.fatal = pathEnd{"deadlock", s.describeBlocked()}
+		main := s.threads[0]
+		s.cur = main
+		main.resume <- struct{}{}
+		return
+	}
+	k := 0
+	if len(rs) > 1 {
+		k = m.schedFork(len(rs))
+		s.choices = append(s.choices, rs[k].id)
+	}
+	s.switchTo(rs[k], false)
+}
 
-func (m *Machine) waitAll(fr *frame) {}
+func (s *sched) allDone() bool {
+	for _, t := range s.threads {
+		if !t.done {
+			return false
+		}
+	}
+	return true
+}
 
-func (m *Machine) mutexOp(fr *frame, name string, mu Value) Value { return nil }
+func (s *sched) describeBlocked() string {
+	out := "all threads blocked:"
+	for _, t := range s.threads {
+		if !t.done {
+			out += fmt.Sprintf(" t%d(%T)", t.id, t.blockedOn)
+		}
+	}
+	return out
+}
+
+// yield is a scheduling point at which the current thread stays runnable.
+func (m *Machine) yield(fr *frame, what string) {
+	s := m.threads
+	if s == nil || len(s.threads) <= 1 || m.scope != nil {
+		return
+	}
+	rs := s.runnable()
+	if len(rs) <= 1 {
+		return
+	}
+	if s.preempts >= m.maxPreempt() {
+		return
+	}
+	k := m.schedFork(len(rs))
+	s.choices = append(s.choices, rs[k].id)
+	if k != 0 {
+		s.preempts++
+		s.switchTo(rs[k], true)
+	}
+}
+
+func (m *Machine) maxPreempt() int {
+	if m.Conf.MaxPreempt > 0 {
+		return m.Conf.MaxPreempt
+	}
+	return 3
+}
+
+// block parks the current thread until `on` is released; a deadlock ends the
+// path with a counterexample.
+func (m *Machine) block(fr *frame, on any) {
+	s := m.sched()
+	me := s.cur
+	me.blockedOn = on
+	rs := s.runnable()
+	if len(rs) == 0 {
+		me.blockedOn = nil
+		m.deadlock(s)
+	}
+	k := 0
+	if len(rs) > 1 {
+		k = m.schedFork(len(rs))
+		s.choices = append(s.choices, rs[k].id)
+	}
+	s.switchTo(rs[k], true)
+}
+
+// schedFork is a scheduling decision: a Fork while exploring, the fixed policy
+// "first runnable" (current thread, else lowest id) in concrete mode.
+func (m *Machine) schedFork(n int) int {
+	if m.Conf.ConcreteSet {
+		return 0
+	}
+	return m.Fork(n)
+}
+
+func (m *Machine) deadlock(s *sched) {
+	desc := s.describeBlocked()
+	if s.cur.id != 0 {
+		panic(pathEnd{"deadlock", desc})
+	}
+	panic(pathEnd{"deadlock", desc})
+}
+
+func (s *sched) wake(on any) {
+	for _, t := range s.threads {
+		if t.blockedOn == on {
+			t.blockedOn = nil
+		}
+	}
+}
+
+// waitAll joins every other thread: used when the harness function returns
+// (so that failures in goroutines it started are observed) and by explicit
+// joins. Finishing threads wake the joiner.
+func (m *Machine) waitAll(fr *frame) {
+	s := m.threads
+	if s == nil {
+		return
+	}
+	for s.pendingOthers() {
+		m.block(fr, s)
+	}
+}
+
+func (s *sched) pendingOthers() bool {
+	for _, t := range s.threads {
+		if t != s.cur && !t.done {
+			return true
+		}
+	}
+	return false
+}
+
+// mutexOp implements Lock/Unlock/RLock/RUnlock of sync.Mutex and sync.RWMutex.
+func (m *Machine) mutexOp(fr *frame, name string, mu Value) Value {
+	if m.initing {
+		return nil
+	}
+	p, ok := mu.(Ptr)
+	if !ok || p == nil {
+		m.rtPanic(fr, "nil-dereference")
+	}
+	s := m.sched()
+	st := s.mutexes[p]
+	if st == nil {
+		st = &mutexState{}
+		s.mutexes[p] = st
+	}
+	me := s.cur.id + 1
+	switch {
+	case hasSuffix(name, ").Lock"):
+		m.yield(fr, "Lock")
+		for st.writer != 0 || st.readers > 0 {
+			m.block(fr, st)
+		}
+		st.writer = me
+	case hasSuffix(name, ").Unlock"):
+		if st.writer == 0 {
+			panic(&GoPanic{V: Iface{T: m.W.runtimeErrorType(), V: Str{S: "fatal error: sync: unlock of unlocked mutex"}}, Site: "unlock-of-unlocked-mutex@" + fnName(fr), RT: true})
+		}
+		st.writer = 0
+		s.wake(st)
+		m.yield(fr, "Unlock")
+	case hasSuffix(name, ").RLock"):
+		m.yield(fr, "RLock")
+		for st.writer != 0 {
+			m.block(fr, st)
+		}
+		st.readers++
+	case hasSuffix(name, ").RUnlock"):
+		if st.readers == 0 {
+			panic(&GoPanic{V: Iface{T: m.W.runtimeErrorType(), V: Str{S: "fatal error: sync: RUnlock of unlocked RWMutex"}}, Site: "runlock-of-unlocked-rwmutex@" + fnName(fr), RT: true})
+		}
+		st.readers--
+		s.wake(st)
+		m.yield(fr, "RUnlock")
+	case hasSuffix(name, ").TryLock"):
+		m.yield(fr, "TryLock")
+		if st.writer != 0 || st.readers > 0 {
+			return m.F.False
+		}
+		st.writer = me
+		return m.F.True
+	}
+	return nil
+}
+
+func hasSuffix(s, suf string) bool { return len(s) >= len(suf) && s[len(s)-len(suf):] == suf }
+
+func fnName(fr *frame) string {
+	if fr == nil {
+		return "?"
+	}
+	return fr.fn.String()
+}
+
+// ---- sync.WaitGroup ----
+
+func (m *Machine) wgOp(fr *frame, op string, wg Value, delta int64) {
+	if m.initing {
+		return
+	}
+	p, ok := wg.(Ptr)
+	if !ok || p == nil {
+		m.rtPanic(fr, "nil-dereference")
+	}
+	s := m.sched()
+	st := s.wgs[p]
+	if st == nil {
+		st = &wgState{}
+		s.wgs[p] = st
+	}
+	switch op {
+	case "add":
+		st.n += delta
+		if st.n < 0 {
+			panic(&GoPanic{V: Iface{T: m.W.runtimeErrorType(), V: Str{S: "sync: negative WaitGroup counter"}}, Site: "negative-waitgroup-counter@" + fnName(fr), RT: true})
+		}
+		if st.n == 0 {
+			s.wake(st)
+		}
+		m.yield(fr, "WaitGroup.Add")
+	case "wait":
+		m.yield(fr, "WaitGroup.Wait")
+		for st.n > 0 {
+			m.block(fr, st)
+		}
+	}
+}
+
+// endThreads is called when a path ends: every parked goroutine is released
+// with the kill flag set and unwinds without running interpreted code.
+func (m *Machine) endThreads() {
+	s := m.threads
+	if s == nil {
+		return
+	}
+	s.killed = true
+	for _, t := range s.threads[1:] {
+		if !t.done || !t.started {
+			select {
+			case t.resume <- struct{}{}:
+			default:
+			}
+		}
+	}
+	s.alive.Wait()
+	m.threads = nil
+}
